@@ -38,17 +38,17 @@ def rule_cancel_safe(ctx):
     m = muts[0]
     after = cfg.reach_from([f.blocks[m["bb"]]["t"]["t"]]) if "t" in f.blocks[m["bb"]]["t"] else set()
     yields = [bi for bi in after if f.blocks[bi]["t"]["k"] == "yield"]
-    errs = [bi for bi in after for s in f.blocks[bi]["s"] if s["k"] == "assign" and s["p"]["l"] == 0 and s["r"]["k"] == "agg" and s["r"].get("variant") == "Err"]
+    errs = [bi for bi in after for s in f.blocks[bi]["s"] if s["k"] == "assign" and s["p"]["l"] in Q.ret_locals(f) and s["r"]["k"] == "agg" and s["r"].get("variant") == "Err"]
     res = [bi for bi in after if f.blocks[bi]["t"]["k"] == "call" and "decl" in f.blocks[bi]["t"]["f"] and f.callee(f.blocks[bi]["t"])[0].qname == "std::ops::FromResidual::from_residual"]
     ok = not yields and not errs and not res
     ctx.ob(R, "nothing cancellable after the reservation", ok, "from the reservation to Ok(Permit) there is no await point and no error return (%d blocks)" % len(after) if ok else
            "after reserving permits acquire can still be cancelled or fail (await at bb%s, error returns %s): reserved permits would leak" % (yields[:3], (errs + res)[:3]), f.loc(m["t"].get("ln")))
-    oks = [bi for bi, b in enumerate(f.blocks) for s in b["s"] if s["k"] == "assign" and s["p"]["l"] == 0 and s["r"]["k"] == "agg" and s["r"].get("variant") == "Ok"]
+    oks = [bi for bi, b in enumerate(f.blocks) for s in b["s"] if s["k"] == "assign" and s["p"]["l"] in Q.ret_locals(f) and s["r"]["k"] == "agg" and s["r"].get("variant") == "Ok"]
     # Ok(Permit{permits: n>0}) only after the reservation
     real = []
     for bi in oks:
         for s in f.blocks[bi]["s"]:
-            if s["k"] == "assign" and s["p"]["l"] == 0 and s["r"]["k"] == "agg":
+            if s["k"] == "assign" and s["p"]["l"] in Q.ret_locals(f) and s["r"]["k"] == "agg":
                 t = T.rvalue(s["r"])
                 for x in subterms(t):
                     if x[0] == "agg" and x[1] == LIM + "::Permit" and dict(x[3]).get("permits") != ("const", 0):
@@ -226,7 +226,7 @@ def rule_burst(ctx):
         if chain(b)[1][-1:] == ["burst"] and a in (("upvar", "permits"),):
             return -1
         return 0
-    oks = [bi for bi, b in enumerate(f.blocks) for s in b["s"] if s["k"] == "assign" and s["p"]["l"] == 0 and s["r"]["k"] == "agg" and s["r"].get("variant") == "Ok"]
+    oks = [bi for bi, b in enumerate(f.blocks) for s in b["s"] if s["k"] == "assign" and s["p"]["l"] in Q.ret_locals(f) and s["r"]["k"] == "agg" and s["r"].get("variant") == "Ok"]
     W = Walker(ctx, f, [Atom("cmp(burst,permits)", "cmp", m, ["<", "=", ">"])])
     names, tab = W.table({"ok": oks})
     ok = "ok" not in tab.get(("<",), {"ok"}) and "ok" in tab.get(("=",), set()) and "ok" in tab.get((">",), set())
@@ -241,7 +241,7 @@ def rule_arithmetic(ctx):
     rets = []
     for b in f.blocks:
         for s in b["s"]:
-            if s["k"] == "assign" and s["p"]["l"] == 0 and not s["p"].get("pr"):
+            if s["k"] == "assign" and s["p"]["l"] in Q.ret_locals(f) and not s["p"].get("pr"):
                 rets.append(norm_arith(T.rvalue(s["r"])))
         t = b["t"]
         if t["k"] == "call" and t["dest"]["l"] == 0 and not t["dest"].get("pr"):
